@@ -543,6 +543,10 @@ def Stmt.lbody : Stmt → Stmt
   | .loop _ _ b => b
   | _ => .skip
 
+def Stmt.rbody : Stmt → Stmt
+  | .range _ _ _ b => b
+  | _ => .skip
+
 /-- The relational form of `loop_fold`, for loops whose final state is best described by an invariant: the loop
     ends normally in some abstract state that satisfies the invariant and falsifies the condition. -/
 theorem loop_inv {α : Type} (X : Ctx) (c : Expr) (post body : Stmt) (g : Nat)
